@@ -70,47 +70,45 @@ Pose3D operator*(const Eigen::Affine3d & affine, const Pose3D & pose3D)
 
   Eigen::Matrix3d R = affine.rotation();
   Eigen::Vector3d T = affine.translation();
-  Eigen::Matrix3d rotation = affine.rotation() * smartRotation.R();
+  Eigen::Matrix3d rotation = R * smartRotation.R();
+
+  // derivatives of S = smartRotation.R() = Rz * Ry * Rx wrt the angles around X, Y and Z:
+  // S * [ex]x, [Rz * ey]x * S and [ez]x * S (smartRotation.dRdAngleAround?Axis() keep an
+  // identity entry of their initial value and are not these derivatives)
+  const Eigen::Matrix3d & S = smartRotation.R();
+  const Eigen::Vector3d yAxis(
+    -std::sin(pose3D.orientation.z()), std::cos(pose3D.orientation.z()), 0.);
+  Eigen::Matrix3d dSdAngle[3];
+  dSdAngle[0] << Eigen::Vector3d::Zero(), S.col(2), -S.col(1);
+  dSdAngle[1] << yAxis.cross(S.col(0)), yAxis.cross(S.col(1)), yAxis.cross(S.col(2));
+  dSdAngle[2] << -S.row(1), S.row(0), Eigen::RowVector3d::Zero();
 
   Eigen::Matrix6d J = Eigen::Matrix6d::Zero();
-  J.block<3, 3>(0, 0) = rotation;
+  // position = R * position + T
+  J.block<3, 3>(0, 0) = R;
 
   // derivative of rotation wrt angle around X = atan(r21/r22)
   double r21 = rotation(2, 1);
   double r22 = rotation(2, 2);
   double a21 = r22 / (r21 * r21 + r22 * r22);
   double a22 = r21 / (r21 * r21 + r22 * r22);
-  J(3, 3) = R.row(2).dot(
-    a21 * smartRotation.dRdAngleAroundXAxis().col(1) -
-    a22 * smartRotation.dRdAngleAroundXAxis().col(2));
-  J(3, 4) = R.row(2).dot(
-    a21 * smartRotation.dRdAngleAroundYAxis().col(1) -
-    a22 * smartRotation.dRdAngleAroundYAxis().col(2));
-  J(3, 5) = R.row(2).dot(
-    a21 * smartRotation.dRdAngleAroundZAxis().col(1) -
-    a22 * smartRotation.dRdAngleAroundZAxis().col(2));
-
 
   // derivative of rotation wrt angle around Y = - asin(r20)
   double r20 = rotation(2, 0);
-  double a20 = 1. / (1 - r20 * r20);
-  J(4, 3) = R.row(2).dot(a20 * smartRotation.dRdAngleAroundXAxis().col(0));
-  J(4, 4) = R.row(2).dot(a20 * smartRotation.dRdAngleAroundYAxis().col(0));
-  J(4, 5) = R.row(2).dot(a20 * smartRotation.dRdAngleAroundZAxis().col(0));
-
+  double a20 = -1. / std::sqrt(1 - r20 * r20);
 
   // derivative of rotation wrt angle around Z = atan(r10/r00)
-  double r10 = R(1, 0);
-  double r00 = R(0, 0);
+  double r10 = rotation(1, 0);
+  double r00 = rotation(0, 0);
   double a10 = r00 / (r00 * r00 + r10 * r10);
   double a00 = r10 / (r00 * r00 + r10 * r10);
 
-  J(5, 3) = (-a00 * rotation.row(0) + a10 * rotation.row(1)).dot(
-    smartRotation.dRdAngleAroundYAxis().col(0));
-  J(5, 4) = (-a00 * rotation.row(0) + a10 * rotation.row(1)).dot(
-    smartRotation.dRdAngleAroundXAxis().col(0));
-  J(5, 5) = (-a00 * rotation.row(0) + a10 * rotation.row(1)).dot(
-    smartRotation.dRdAngleAroundZAxis().col(0));
+  for (int k = 0; k < 3; ++k) {
+    Eigen::Matrix3d dRotation = R * dSdAngle[k];
+    J(3, 3 + k) = a21 * dRotation(2, 1) - a22 * dRotation(2, 2);
+    J(4, 3 + k) = a20 * dRotation(2, 0);
+    J(5, 3 + k) = a10 * dRotation(1, 0) - a00 * dRotation(0, 0);
+  }
 
   Pose3D result;
   result.position = R * pose3D.position + T;
